@@ -11,7 +11,10 @@
   A circuit is what the pipeline looks at: number of qubits, wire names (device node
   names, encoded as naturals by the harness), and the queue as gate skeletons
   (class id in the convention of QV/Model/Unroller.lean — 3 is `M` —, an opaque tag for
-  the parameters, the ordered qubits = wire INDICES).
+  the parameters, the ordered qubits = wire INDICES).  The tag of a measurement entry
+  stands for ALL its constructor arguments (register name, collapse flag, bases, the
+  readout-error maps p0 / p1 in the order of its qubits): "the queue is kept" (padding,
+  placers) and "the measurement entries are kept" (unroller contract) include them.
 
   The heuristic searches (Random's sampling, Subgraph's isomorphism search,
   ReverseTraversal, the routers, the unroller's tables) are ORACLES of the pipeline
